@@ -387,6 +387,15 @@ func (tr *Tr) havocLoop(fr *Frame, li *loopInfo) {
 	allocs := false
 	events := false
 	all := false
+	mayWrite := false
+	logLen0 := tr.get(fr.st, "ev.len")
+	// fields never assigned after construction survive the loop, except for struct types this function itself initialises
+	oldHeapL := map[string]*Term{}
+	for _, k := range heapKeys {
+		oldHeapL[k] = tr.get(fr.st, heapComp(k))
+	}
+	allocL := tr.get(fr.st, "alloc")
+	defer func() { tr.keepImmutableFieldsExcept(fr.st, oldHeapL, allocL, initialisedIn(fr.fn)) }()
 	type slotHavoc struct {
 		key      string
 		reg, off *Term
@@ -487,6 +496,9 @@ func (tr *Tr) havocLoop(fr *Frame, li *loopInfo) {
 			case *ssa.Go, *ssa.Defer:
 				all = true
 			case ssa.CallInstruction:
+				if tr.callMayWrite(fr, x.Common()) {
+					mayWrite = true
+				}
 				eff := tr.callEffects(fr, x.Common())
 				if eff.all {
 					all = true
@@ -508,6 +520,9 @@ func (tr *Tr) havocLoop(fr *Frame, li *loopInfo) {
 	}
 	if all {
 		tr.havocState(fr.st, "loop")
+		if !mayWrite {
+			tr.assumeNoWriteSince(fr.st, logLen0, "no call in the loop body can reach WriteAt: the events it appends are not WRITE events")
+		}
 		return
 	}
 	for k := range fullKeys {
@@ -573,6 +588,9 @@ func (tr *Tr) havocLoop(fr *Frame, li *loopInfo) {
 	}
 	if events {
 		tr.havocLog(fr.st)
+		if !mayWrite {
+			tr.assumeNoWriteSince(fr.st, logLen0, "no call in the loop body can reach WriteAt: the events it appends are not WRITE events")
+		}
 	}
 }
 
